@@ -571,6 +571,12 @@ loop(F_TD, "TDigest.cdf", 1, types={"count_below": Real}, inv=[
     ("count-below-is-the-weight-before-i-and-earlier-means-are-below-the-value", _cdf_walk),
 ])
 
+# ============================================================================ Merkle tree: helpers
+F_MK = "happysimulator/sketching/merkle_tree.py"
+# representation only (no logical content): the accumulator of _diff_nodes starts as an EMPTY symbolic list, so
+# that `result.extend(<list returned by the recursive call>)` is a sequence concatenation
+ghost(F_MK, "_diff_nodes", "result: list[KeyRange] = []", "result = _c20_empty_ranges()")
+
 from specs.common import *  # noqa: E402,F401
 from happysimulator.sketching.bloom_filter import BloomFilter  # noqa: E402
 from happysimulator.sketching.tdigest import TDigest, _Centroid as TCentroid  # noqa: E402
@@ -593,6 +599,10 @@ PROPERTY = {
                 "bin(x).count('1') an uninterpreted non-negative int)",
                 "min(d.values(), key=f) / min(f(v) for v in d.values()) over a symbolic dict return an ARBITRARY minimal "
                 "element/value (pyvc/rt.py _map_extreme); sum(<genexpr over a list of symbolic length>) is an arbitrary number",
+                "list.sort() / list.extend() on a Vec (pyvc/vec.py): sort returns an ordered permutation (index maps pi/pinv), "
+                "extend the concatenation; the spec-registered facts `a finite sum does not depend on the order of its terms` "
+                "and `the sum of a concatenation is the sum of the sums` are assumed for the t-digest prefix weight W "
+                "(_td_sort_extend_facts)",
                 "tasks `_hash[range]`: hashlib.sha256 digests unpacked with struct '>Q' are arbitrary ints in [0, 2**64) "
                 "and builtin hash() is an arbitrary int (spec-local models _ModelHashlib/_ModelStruct/_model_hash)"],
     "assumptions": COMMON_ASSUMPTIONS + [
@@ -604,7 +614,17 @@ PROPERTY = {
         "callers use this stub (fixed function + range; the range half is proved from the real code in tasks `_hash[range]`)",
         "_count_leading_zeros(value, max_bits) is a fixed function of its arguments (stub; its value range is not needed)",
         "random.Random.randint(a, b) returns an int in [a, b], random() a float in [0, 1) (stubs); the seed is irrelevant",
-        "TDigest._flush empties the buffer (stub, used by TDigest.add only; _flush itself is covered by the bounded stand-in)",
+        "t-digest centroids are immutable after construction (no statement of tdigest.py assigns `.mean` / `.count`: "
+        "checked by a source scan at spec import), so the centroid list is a list of (mean, count) VALUES",
+        "t-digest weights: W(list, i) = sum of max(1, count) over the first i centroids is an uninterpreted function used "
+        "through its defining equations (D0/D1) plus three consequences whose induction base and step are machine-checked "
+        "(lemma tdigest-prefix-weight-facts: frame under a store, W(j)-W(i) >= j-i, concatenation); the inductions "
+        "themselves are not machine-checked",
+        "TDigest._max_size returns some float without effect on modelled state (stub without clauses: the size bound only "
+        "steers how much _compress merges, no clause depends on it; its sqrt / division are not verified to be defined)",
+        "TDigest.merge(other) with other is self is not covered (precondition of the merge task)",
+        "floats are reals (A-float): the t-digest clauses are proved for exact arithmetic; rounding inside the "
+        "interpolation is covered by the bounded stand-in tdigest-quantiles only",
         "CountMinSketch._generate_hash_seeds returns one seed per row (stub, used by the constructor task only)",
         "value / weight extractors of the collectors are arbitrary total functions without effect on modelled state "
         "(spec-side classes _ValueFn/_WeightFn/_RealFn record their answer in ghost fields); Sketch.add of the "
@@ -1106,7 +1126,7 @@ fn(TDigest, "_compress", inv=False, uses=[(TDigest, "_max_size"), (TCentroid, "m
     ("centroids-sorted-by-mean", lambda s: arr_sorted(carr(s.self), clen(s.self))),
     ("centroids-weigh-at-least-one-and-lie-within-min-max", lambda s: arr_sound(s.self, carr(s.self), clen(s.self))),
     ("total-weight-unchanged", lambda s: td_weight(s.self) == td_weight(s.old(s.self))),
-    ("never-more-centroids-and-none-only-if-none", lambda s: (clen(s.self) <= clen(s.old(s.self)))
+    ("never-more-centroids-and-none-only-if-none", lambda s: (0 <= clen(s.self)) & (clen(s.self) <= clen(s.old(s.self)))
         & iff(clen(s.self) == 0, clen(s.old(s.self)) == 0)),
     ("frame", lambda s: _td_frame(s, "_buffer"))])
 
@@ -1170,7 +1190,8 @@ def quantile_at_two_levels(td, q1, q2):
 # "t-digest quantiles are non-decreasing in q": two REAL calls on one digest (the first call flushes; the
 # second runs on the state the first one left)
 fn("specs.C20", "quantile_at_two_levels", kind="function", args={"td": Ref(TDigest), "q1": Real, "q2": Real},
-   requires=[lambda s: (0 <= s.q1) & (s.q1 <= s.q2) & (s.q2 <= 1)], uses=TD_FLUSH,
+   inv=False,       # (the invariants are assumed through the precondition; TDigest.quantile proves them at its exit)
+   requires=[lambda s: (0 <= s.q1) & (s.q1 <= s.q2) & (s.q2 <= 1), lambda s: td_rep_ok(s.td)], uses=TD_FLUSH,
    ensures=[("quantiles-non-decreasing-in-q", lambda s: s.result[0] <= s.result[1])],
    raises={ValueError: [("only-empty-digest", lambda s: s.old(s.td)._total_count == 0)]})
 
@@ -1206,7 +1227,7 @@ import inspect as _inspect  # noqa: E402
 CDF_REPAIRED = "prev.mean < value <= centroid.mean" in _inspect.getsource(_td_mod)
 if CDF_REPAIRED:
     fn("specs.C20", "cdf_at_two_values", kind="function", args={"td": Ref(TDigest), "v1": Real, "v2": Real},
-       requires=[lambda s: s.v1 <= s.v2], uses=TD_FLUSH,
+       inv=False, requires=[lambda s: s.v1 <= s.v2, lambda s: td_rep_ok(s.td)], uses=TD_FLUSH,
        ensures=[("cdf-non-decreasing-in-the-value", lambda s: s.result[0] <= s.result[1])])
 
 
@@ -1267,7 +1288,104 @@ fn(KeyRange, "contains", self_ty=KR, args={"key": Str}, inv=False, ensures=[
 M_MK = "happysimulator.sketching.merkle_tree"
 cls(MerkleNode, fields={"hash": Str, "key_range": KR, "left": OptRef(MerkleNode), "right": OptRef(MerkleNode)})
 cls(MerkleTree, fields={"_root": OptRef(MerkleNode), "_data": Map(Str, Any)})
-stub_of(M_MK, "_diff_nodes", returns=Seq(KR), modifies=[], ensures=[])          # arbitrary list: recursion is bounded-only
+
+# ---- the recursive diff, by induction on the tree depth: the recursive calls are used through THIS contract
+# content of a subtree = the key/value map it was built from, as a function of its HASH (collision-freeness of
+# SHA-256 over the encodings used: a hash determines the content - assumption, listed):
+#     CDOM(h) = key set, CVAL(h, k) = value of k.     A node is well-formed (mk_wf) when both children are present or
+# both absent, every key of its content lies within its key range, and the content of an inner node is the union of
+# its children's contents.  _build_tree establishes it (task below), _diff_nodes relies on it for every node.
+import happysimulator.sketching.merkle_tree as _mk_mod  # noqa: E402
+from pyvc.heap import Box as _Box  # noqa: E402
+S_ = z3.StringSort()
+ANY_ = Any.sort()
+CDOM = z3.Function("mk_content_keys", S_, z3.ArraySort(S_, z3.BoolSort()))
+CVAL = z3.Function("mk_content_value", S_, S_, ANY_)
+SKR = Seq(KR)
+COVF = z3.Function("mk_covered", SKR.sort(), S_, z3.BoolSort())      # some range of the list contains the key
+
+
+def _empty_ranges():
+    return SymList(_Box(z3.Empty(SKR.sort())), KR)
+
+
+_mk_mod._c20_empty_ranges = _empty_ranges
+
+
+def n_hash(n):
+    return field_term(n, "hash")
+
+
+def n_start(n):
+    return KR.dt.start(field_term(n, "key_range"))
+
+
+def n_end(n):
+    return KR.dt.end(field_term(n, "key_range"))
+
+
+def _kid(n, side):
+    return ObjProxy(field_term(n, side), MerkleNode, n._frozen)
+
+
+def mk_union_of(h, hl, hr):
+    """content(h) is the union of content(hl) and content(hr)"""
+    return mk_bool(CDOM(h) == z3.SetUnion(CDOM(hl), CDOM(hr))) & forall(Str, lambda k: mk_bool(
+        CVAL(h, k.t) == z3.If(z3.Select(CDOM(hl), k.t), CVAL(hl, k.t), CVAL(hr, k.t))), "mv")
+
+
+def mk_wf(n):
+    l, r, h = field_term(n, "left"), field_term(n, "right"), n_hash(n)
+    inner = mk_bool(l != 0)
+    return mk_bool((l == 0) == (r == 0)) \
+        & implies(inner, _allocated(l) & _allocated(r)) \
+        & implies(inner, mk_union_of(h, n_hash(_kid(n, "left")), n_hash(_kid(n, "right")))) \
+        & forall(Str, lambda k: implies(mk_bool(z3.Select(CDOM(h), k.t)),
+                                        mk_bool(z3.And(n_start(n) <= k.t, k.t <= n_end(n)))), "mk")
+
+
+def mk_all_wf(s):
+    return forall(Ref(MerkleNode), lambda n: implies(_allocated(n._ref), mk_wf(n)), "mn")
+
+
+def mk_differs(ha, hb, k):
+    """the contents with hashes ha / hb disagree on key k (present in one only, or different values)"""
+    da, db = z3.Select(CDOM(ha), k), z3.Select(CDOM(hb), k)
+    return mk_bool(z3.And(z3.Or(da, db), z3.Not(z3.And(da, db, CVAL(ha, k) == CVAL(hb, k)))))
+
+
+def _cov_term(t, k):
+    """COVF(t, k) with its definition unfolded along the syntactic structure of the sequence term"""
+    c = _pctx.cur()
+    t = z3.simplify(t)
+    if z3.is_app_of(t, z3.Z3_OP_SEQ_CONCAT):
+        c.assume(COVF(t, k) == z3.Or(*[_cov_term(x, k) for x in t.children()]))
+    elif z3.is_app_of(t, z3.Z3_OP_SEQ_EMPTY):
+        c.assume(z3.Not(COVF(t, k)))
+    elif z3.is_app_of(t, z3.Z3_OP_SEQ_UNIT):
+        x = t.arg(0)
+        c.assume(COVF(t, k) == z3.And(KR.dt.start(x) <= k, k <= KR.dt.end(x)))
+    return COVF(t, k)
+
+
+def mk_covered(ranges, k):
+    """some KeyRange of the returned list contains key k"""
+    if isinstance(ranges, SymList):
+        return mk_bool(_cov_term(ranges.term, k.t))
+    r = False
+    for x in ranges:
+        r = ((x.start <= k) & (k <= x.end)) | r
+    return r
+
+
+fn(M_MK, "_diff_nodes", kind="function", args={"a": Ref(MerkleNode), "b": Ref(MerkleNode)}, returns=SKR, modifies=[],
+   uses=[(M_MK, "_diff_nodes")], requires=[("every-node-well-formed", mk_all_wf)],
+   ensures=[
+    # the property: the ranges cover every key whose value differs (or that only one side holds)
+    ("ranges-cover-every-differing-key", lambda s: forall(Str, lambda k: implies(
+        mk_differs(n_hash(s.a), n_hash(s.b), k.t), mk_covered(s.result, k)), "dk")),
+    ("equal-hashes-give-no-range", lambda s: implies(mk_bool(n_hash(s.a) == n_hash(s.b)), slen(s.result) == 0)),
+    ("pure", lambda s: unchanged(s, s.a) & unchanged(s, s.b))])
 
 
 def _one_range(r, node):
@@ -1583,6 +1701,44 @@ def _topk_heavy_hitters():
 
 
 lemma("topk-heavy-hitters-are-tracked", _topk_heavy_hitters)
+
+
+# ---- the facts about the t-digest prefix weight W(arr, i) = sum_{k<i} max(1, count(arr[k])) that `Wt` /
+#      `_w_mono_everywhere` / `_td_sort_extend_facts` add to a path.  W is uninterpreted; its DEFINITION is
+#          (D0) W(a, 0) == 0        (D1) W(a, i+1) == W(a, i) + max(1, count(a[i]))   for i >= 0.
+#      Each derived fact is an induction over the index; base and step are machine-checked here from D0/D1,
+#      the induction itself is not (listed).  Permutation invariance of a finite sum is trusted.
+def _td_weight_lemmas():
+    a, b, cat = z3.Consts("tw_a tw_b tw_cat", _CARR)
+    x = z3.Const("tw_x", CV.sort())
+    i, j, k, n, m = z3.Ints("tw_i tw_j tw_k tw_n tw_m")
+
+    def d1(arr, idx):
+        return TDW(arr, idx + 1) == TDW(arr, idx) + cnt1(z3.Select(arr, idx))
+    # frame: W(Store(a, k, x), i) == W(a, i) for 0 <= i <= k
+    st = z3.Store(a, k, x)
+    assume(z3.And(TDW(a, z3.IntVal(0)) == 0, TDW(st, z3.IntVal(0)) == 0, TDW(b, z3.IntVal(0)) == 0))
+    oblige("frame/base", TDW(st, z3.IntVal(0)) == TDW(a, z3.IntVal(0)))
+    oblige("frame/step", z3.Implies(z3.And(0 <= i, i + 1 <= k, TDW(st, i) == TDW(a, i), d1(st, i), d1(a, i)),
+                                    TDW(st, i + 1) == TDW(a, i + 1)))
+    # monotone: W(a, j) - W(a, i) >= j - i for 0 <= i <= j
+    oblige("monotone/base", TDW(a, i) - TDW(a, i) >= i - i)
+    oblige("monotone/step", z3.Implies(z3.And(0 <= i, i <= j, TDW(a, j) - TDW(a, i) >= j - i, d1(a, j)),
+                                       TDW(a, j + 1) - TDW(a, i) >= j + 1 - i))
+    # concatenation: cat = a[0..n) ++ b[0..m):  W(cat, i) == W(a, i) for i <= n;  W(cat, n + k) == W(a, n) + W(b, k)
+    assume(TDW(cat, z3.IntVal(0)) == 0)
+    assume(z3.And(n >= 0, m >= 0))
+    assume(z3.ForAll([j], z3.Implies(z3.And(0 <= j, j < n), z3.Select(cat, j) == z3.Select(a, j))))
+    assume(z3.ForAll([j], z3.Implies(z3.And(n <= j, j < n + m), z3.Select(cat, j) == z3.Select(b, j - n))))
+    oblige("concat-prefix/step", z3.Implies(z3.And(0 <= i, i + 1 <= n, TDW(cat, i) == TDW(a, i), d1(cat, i), d1(a, i)),
+                                            TDW(cat, i + 1) == TDW(a, i + 1)))
+    oblige("concat/base", z3.Implies(TDW(cat, n) == TDW(a, n), TDW(cat, n + 0) == TDW(a, n) + TDW(b, z3.IntVal(0))))
+    oblige("concat/step", z3.Implies(z3.And(0 <= k, k + 1 <= m, TDW(cat, n + k) == TDW(a, n) + TDW(b, k),
+                                            d1(cat, n + k), d1(b, k)),
+                                     TDW(cat, n + k + 1) == TDW(a, n) + TDW(b, k + 1)))
+
+
+lemma("tdigest-prefix-weight-facts", _td_weight_lemmas)
 
 # ============================================================================ bounded native stand-ins
 # t-digest quantile / _compress / merge (float interpolation over sorted centroids) and the Merkle tree
